@@ -39,7 +39,7 @@ class ProxyFixMiddleware:
                     elif part.startswith("proto="):
                         scheme = part[6:].strip()
 
-            else:
+            elif self.mode != "modern":
                 client = _get_trusted_value(b"x-forwarded-for", headers, self.trusted_hops)
                 scheme = _get_trusted_value(b"x-forwarded-proto", headers, self.trusted_hops)
                 host = _get_trusted_value(b"x-forwarded-host", headers, self.trusted_hops)
